@@ -42,6 +42,7 @@ type c13World struct {
 	vuser  sdk.AccAddress    // runs the vault messages (not projected)
 	ep     map[[2]uint64]uint64 // (app, assetOut) -> extended pair id
 	height int64
+	aucHeavy bool // the case concentrates on auction flows
 }
 
 func c13U(n uint64) string { return fmt.Sprint(n) }
@@ -397,6 +398,9 @@ func (w *c13World) c13RandomOp(r *rng, stage int) {
 		return lockers[r.intn(len(lockers))], true
 	}
 	k := r.intn(100)
+	if w.aucHeavy && r.chance(35) {
+		k = 99
+	}
 	switch {
 	case k < 10:
 		w.c13Create(u, app, asset, c13Amount(r))
@@ -496,7 +500,7 @@ func (w *c13World) c13RandomOp(r *rng, stage int) {
 		} else {
 			w.c13SetBreaker(w.apps[r.intn(2)], r.chance(40))
 		}
-	case k < 90 && stage >= 2:
+	case k < 84 && stage >= 2:
 		// vault messages generating fees (draw-down fee, interest, closing fee)
 		if app == 7 {
 			app = w.apps[0]
@@ -531,7 +535,7 @@ func (w *c13World) c13RandomOp(r *rng, stage int) {
 				w.c13Vault("depdraw", app, out, vaulttypes.NewMsgDepositAndDrawRequest(w.vuser, app, ep, v.Id, sdk.NewInt(in)))
 			}
 		}
-	case k < 94 && stage >= 2:
+	case k < 88 && stage >= 2:
 		nf, _ := w.a.CollectorKeeper.GetNetFeeCollectedData(w.ctx, app, asset)
 		amt := c13Amount(r)
 		if !nf.NetFeesCollected.IsNil() && nf.NetFeesCollected.IsPositive() {
@@ -570,6 +574,7 @@ func c13RunCase(t *testing.T, a *chain.App, base sdk.Context, tr *tracer, r *rng
 	w.vuser = addrN(29)
 	stage := 3
 	nops := 20 + r.intn(31)
+	w.aucHeavy = r.chance(30)
 	var sb strings.Builder
 	for _, x := range apps {
 		fmt.Fprintf(&sb, " %d", x)
